@@ -110,6 +110,17 @@ class P04(SessionPlan):
                     yield C.SessionCase("connack-deadline", Cfg(profile=prof, model=model), steps=head + [("adv", 1)])
                     yield C.SessionCase("connack-deadline", Cfg(profile=prof, model=model), steps=head + [("connack", 0, 0, False), ("adv", 1)])
                     yield C.SessionCase("connack-deadline", Cfg(profile=prof, model=model), steps=head + [("connack", 0, 2, False), ("adv", 1)])
+        # only every other protocol of the factory gets an onDisconnection handler (same address, and two addresses)
+        for model in MODELS:
+            for prof in ("pubsub", "pub", "sub"):
+                one = []
+                for k in range(4):
+                    one += [("build", 0), ("connect", 0, k % 2 == 0, 0, 4), ("connack", 0, 0, False), ("adv", 1), ("lose", 0, ("done", "lost")[k % 2]), ("adv", 1)]
+                yield C.SessionCase("handler-per-protocol", Cfg(profile=prof, model=model, ondisc="alt"), steps=one)
+                two = [("build", 0), ("build", 1), ("connect", 0, True, 0, 4), ("connect", 1, True, 0, 4), ("connack", 0, 0, False), ("connack", 1, 0, False),
+                       ("lose", 1, "done"), ("adv", 1), ("lose", 0, "lost"), ("adv", 1), ("build", 1), ("connect", 1, True, 0, 4), ("connack", 1, 0, False),
+                       ("lose", 1, "lost"), ("adv", 1)]
+                yield C.SessionCase("handler-per-protocol", Cfg(profile=prof, model=model, ondisc="alt"), steps=two)
         alpha = [("connack", 0, 0, False), ("connack", 0, 0, True), ("connack", 0, 5, False), ("connack", 0, 200, True),
                  ("adv", 11), ("tick",), ("lose", 0, "done"), ("lose", 0, "lost"), ("pub", 0, 1), ("pingresp", 0),
                  ("connect", 0, True, 0, 4), ("connect", 0, False, 4, 3),     # again, e.g. on the protocol a refusal left idle
@@ -200,6 +211,19 @@ class P07(SessionPlan):
                 "noop_acks/SUBACK": 20, "noop_acks/UNSUBACK": 20, "endchecks": 100}
 
     def extra_cases(self, tier, seed):
+
+        # the application subscribes again to the very same filter after every reconnect (session present or not)
+        same = []
+        for lvl in (3, 4):
+            for shape, n in (("str", 1), ("tuple", 1), ("list", 2)):
+                for clean, sp in ((False, True), (False, False), (True, False)):
+                    granted = ("ack", 0, "SUBACK", "old", [1] * n)        # granted exactly as requested
+                    st = connected(clean=clean, lvl=lvl, win=2) + [("sub", 0, shape, n, 1, "same"), granted]
+                    for _ in range(3):
+                        st += [("lose", 0, "lost"), ("build", 0), ("setwin", 0, 2), ("connect", 0, clean, 0, lvl), ("connack", 0, 0, sp),
+                               ("sub", 0, shape, n, 1, "same"), granted]
+                    same.append(C.SessionCase("resubscribe-same", Cfg(profile="pubsub"), steps=st))
+                    same.append(C.SessionCase("resubscribe-same", Cfg(profile="sub", model="tcp"), steps=st))
         alpha = [("sub", 0, "str", 1, 1), ("sub", 0, "tuple", 1, 2), ("sub", 0, "list", 3, 0), ("unsub", 0, "str", 1),
                  ("unsub", 0, "list", 2), ("ack", 0, "SUBACK", "old"), ("ack", 0, "SUBACK", "new", [0x80, 1, 2, 0, 1]),
                  ("ack", 0, "UNSUBACK", "new"), ("dupack", 0, "SUBACK"), ("stray", 0, "UNSUBACK"), ("stray", 0, "SUBACK"),
@@ -212,7 +236,7 @@ class P07(SessionPlan):
             st = connected(win=2) + [("sub", 0, "list", n, 1), ("ack", 0, "SUBACK", "old", [(0, 1, 2, 0x80)[k % 4] for k in range(n)]),
                                      ("unsub", 0, "list", n), ("ack", 0, "UNSUBACK", "old")]
             big.append(C.SessionCase("big-lists", Cfg(profile="sub"), steps=st))
-        return itertools.chain(big, sweep_cases("sweep", cfgs(("pubsub", "sub"), ("sync",)), connected(clean=False, win=2), alpha, depth))
+        return itertools.chain(big, same, sweep_cases("sweep", cfgs(("pubsub", "sub"), ("sync",)), connected(clean=False, win=2), alpha, depth))
 
 
 # ------------------------------------------------------------------------------ C08
